@@ -146,7 +146,7 @@ pub open spec fn vfs_wf(v: &Vfs) -> bool {
 }
 
 /// Id-allocation invariant: every id any table mentions has a slot in `file_data`; `file_id_map` and
-/// `file_path_map` are inverse to each other; the id counter fits u32.
+/// `file_path_map` are inverse to each other; path ids and uri ids are disjoint; the id counter fits u32.
 pub open spec fn vfs_ids_ok(v: &Vfs) -> bool {
     &&& v.file_data@.len() <= u32::MAX
     &&& forall|p: PathBuf| #[trigger] v.file_id_map@.contains_key(p) ==> {
@@ -159,7 +159,11 @@ pub open spec fn vfs_ids_ok(v: &Vfs) -> bool {
             &&& v.file_id_map@.contains_key(v.file_path_map@[i])
             &&& v.file_id_map@[v.file_path_map@[i]] == i
         }
-    &&& forall|u: Uri| #[trigger] v.remote_file_id_map@.contains_key(u) ==> (v.remote_file_id_map@[u].id as int) < v.file_data@.len()
+    &&& forall|u: Uri| #[trigger] v.remote_file_id_map@.contains_key(u) ==> {
+            &&& (v.remote_file_id_map@[u].id as int) < v.file_data@.len()
+            // an id handed out for a uri (remote file / document without a path) is never the id of a path
+            &&& !v.file_path_map@.contains_key(v.remote_file_id_map@[u].id)
+        }
 }
 
 /// the id tables (path <-> id, remote uri -> id) are the same
@@ -197,11 +201,12 @@ pub open spec fn alloc_frame(o: &Vfs, n: &Vfs, r: FileId) -> bool {
     &&& (n.file_data@ == o.file_data@ || (n.file_data@ == o.file_data@.push(None) && r.id as int == o.file_data@.len()))
 }
 
-/// the local id of a uri, as `get_file_id` computes it
+/// the id a uri resolves to, as `get_file_id` computes it: a uri with a file path through `file_id_map`,
+/// a uri without one (e.g. `untitled:`) through `remote_file_id_map`
 pub open spec fn local_id(v: &Vfs, uri: &Uri) -> Option<FileId> {
     match sp_uri_path(uri) {
         Some(p) => if v.file_id_map@.contains_key(p) { Some(FileId { id: v.file_id_map@[p] }) } else { None },
-        None => None,
+        None => if v.remote_file_id_map@.contains_key(*uri) { Some(v.remote_file_id_map@[*uri]) } else { None },
     }
 }
 
